@@ -31,7 +31,13 @@ type cseqObs struct {
 
 const cseqBase = "file:///w/r/root.json"
 
+const cseqI1 = `{"id":"http://Schemas.EXAMPLE.com:80/tree/node.json","type":"object","properties":{"value":{"type":"string"},"next":{"$ref":"node.json"}}}`
+const cseqI2 = `{"id":"https://schemas.example.com:443/tree/node.json","type":"object","properties":{"up":{"$ref":"../tree/node.json"}}}`
+
 var cseqDocs = map[string]string{
+	// the documents behind the ids of I1 / I2, at their canonical locations
+	"http://schemas.example.com/tree/node.json":  cseqI1,
+	"https://schemas.example.com/tree/node.json": cseqI2,
 	"file:///w/r/root.json":    `{"definitions":{"T":{"title":"root-T"}}}`,
 	"file:///w/r/d1.json":      `{"definitions":{"T":{"title":"d1-T","properties":{"u":{"$ref":"d2.json#/definitions/U"}}}}}`,
 	"file:///w/r/d2.json":      `{"definitions":{"U":{"title":"d2-U"}}}`,
@@ -63,12 +69,28 @@ var cseqPool = map[string]string{
 	// a document the loader refuses (whole-document reference, and a pointer into it)
 	"R":  `{"$ref":"refused.json"}`,
 	"R2": `{"properties":{"r":{"$ref":"refused.json#/definitions/T"}}}`,
+	// a schema that refers to itself through its own absolute id, the authority of which is not in canonical form
+	"I1": cseqI1,
+	"I2": cseqI2,
 	// nothing to resolve
 	"E": `{"type":"string"}`,
 }
 
 func init() {
 	families["cacheseq"] = &family{
+		crashed: func(line []byte, outcome, detail string) interface{} {
+			var c struct {
+				Seq []string `json:"seq"`
+				API string   `json:"api"`
+			}
+			_ = json.Unmarshal(line, &c)
+			o := &cseqObs{Seq: c.Seq, API: c.API, Mode: "crashed", Steps: []cseqStep{}}
+			for _, n := range c.Seq {
+				o.Steps = append(o.Steps, cseqStep{Name: n, Out: "the process died or hung (" + outcome + "): " + ascii(tail(detail, 300)), Solo: "?",
+					Loads: []string{}, Delivered: []string{}})
+			}
+			return o
+		},
 		run: func(line []byte, emit func(interface{})) error {
 			var c struct {
 				Seq []string `json:"seq"`
